@@ -1,6 +1,8 @@
 // Kani harness for `From<ShmError> for ClockBoundError` (clock-bound-client/src/lib.rs).
 use crate::*;
+// (explicit imports: the harness must not depend on which names lib.rs happens to import)
 use clock_bound_shm::ShmError;
+use errno::Errno;
 
 #[kani::proof]
 #[kani::unwind(8)]
